@@ -1,55 +1,84 @@
 ---------------------------------- MODULE RC ----------------------------------
 (* Reference counting of immutable expression objects (class Basic with       *)
-(* intrusive counts, RCP handles): the design that C40's leak clause relies    *)
-(* on.  Objects form a DAG (children are created before their parents);        *)
-(* handles are the RCP variables of a caller.  TLC checks, for every           *)
-(* interleaving of creating, copying and dropping handles over at most MaxObj  *)
-(* objects, that counts equal the number of referrers, that an object is       *)
-(* freed exactly when its count reaches zero (cascading to its children), and  *)
-(* that a quiescent caller (no handles) leaves no live object: the observable  *)
-(* the trace specification checks after every replayed case (hook H2:          *)
-(* Basic::verif_live_basic).                                                   *)
+(* intrusive counts, RCP handles): the design that C40 relies on.  Objects    *)
+(* form a DAG (children are created before their parents); handles are the    *)
+(* RCP variables of a caller.  Every handle operation is a pure function on   *)
+(* the state record (so that the trace specification can replay recorded      *)
+(* histories with the same definitions) and an action of the state machine.   *)
+(* TLC checks, for every interleaving of creating, copying, assigning and     *)
+(* dropping handles over at most MaxObj objects, that counts equal the number *)
+(* of referrers, that an object is freed exactly when its count reaches zero  *)
+(* (cascading to its children), and that a quiescent caller (no handles)      *)
+(* leaves no live object: the observable the trace specification checks after *)
+(* every replayed case (hook H2: Basic::verif_live_basic).                    *)
 EXTENDS Integers, FiniteSets, Sequences
-CONSTANTS MaxObj, MaxHandles, Cascade      \* Cascade = FALSE: a deliberately wrong variant (children of a freed object keep their counts) that TLC must refute
+CONSTANTS MaxObj, MaxHandles,
+          Cascade,        \* FALSE: a deliberately wrong variant (children of a freed object keep their counts) that TLC must refute
+          ReleaseFirst    \* TRUE: a deliberately wrong assignment (old pointee released before the new one is acquired) that TLC must refute
 VARIABLES rc,        \* live object -> reference count
-          kids,      \* live object -> set of children
-          handles,   \* bag of handles: handle id -> object
+          kids,      \* live object -> sequence of children (the argument vector of the node)
+          handles,   \* handle id -> object
           nextId
 vars == <<rc, kids, handles, nextId>>
+St == [rc |-> rc, kids |-> kids, handles |-> handles, nextId |-> nextId]
+St0 == [rc |-> [o \in {} |-> 0], kids |-> [o \in {} |-> <<>>], handles |-> [h \in {} |-> 0], nextId |-> 1]
+Becomes(s) == rc' = s.rc /\ kids' = s.kids /\ handles' = s.handles /\ nextId' = s.nextId
 Live == DOMAIN rc
-Init == rc = [o \in {} |-> 0] /\ kids = [o \in {} |-> {}] /\ handles = [h \in {} |-> 0] /\ nextId = 1
-\* set of objects freed when the counts in dec (object -> decrement) are applied, cascading
+KidSet(s, o) == {s.kids[o][i] : i \in 1..Len(s.kids[o])}
+\* counts in todo (a sequence of objects) drop by one each; an object reaching zero is freed and (Cascade) releases its children
 RECURSIVE Release(_, _, _)
-\* todo: sequence of objects whose count drops by one; returns <<rc, kids>> after all cascades
 Release(r, k, todo) ==
-    IF todo = <<>> THEN <<r, k>>
+    IF todo = <<>> THEN [rc |-> r, kids |-> k]
     ELSE LET o == Head(todo)
          IN IF r[o] > 1 THEN Release([r EXCEPT ![o] = @ - 1], k, Tail(todo))
-            ELSE \* freed: remove it, then release its children
-                 LET ch == k[o]
-                     chSeq == CHOOSE s \in [1..Cardinality(ch) -> ch] : \A i, j \in 1..Cardinality(ch) : i # j => s[i] # s[j]
-                     r2 == [x \in (DOMAIN r) \ {o} |-> r[x]]
-                     k2 == [x \in (DOMAIN k) \ {o} |-> k[x]]
-                 IN Release(r2, k2, Tail(todo) \o (IF Cascade THEN chSeq ELSE <<>>))
+            ELSE Release([x \in (DOMAIN r) \ {o} |-> r[x]], [x \in (DOMAIN k) \ {o} |-> k[x]],
+                         Tail(todo) \o (IF Cascade THEN k[o] ELSE <<>>))
+\* ---- the operations as functions of the state
+NewF(s, h, ch) ==          \* make_rcp of a node with argument vector ch, held by the new handle h
+    LET o == s.nextId
+        inc(x) == Cardinality({i \in 1..Len(ch) : ch[i] = x})
+    IN [rc |-> [x \in (DOMAIN s.rc) \cup {o} |-> IF x = o THEN 1 ELSE s.rc[x] + inc(x)],
+        kids |-> [x \in (DOMAIN s.rc) \cup {o} |-> IF x = o THEN ch ELSE s.kids[x]],
+        handles |-> [g \in (DOMAIN s.handles) \cup {h} |-> IF g = h THEN o ELSE s.handles[g]],
+        nextId |-> o + 1]
+DupF(s, h, g) ==           \* RCP g(h): copy construction
+    [s EXCEPT !.rc = [@ EXCEPT ![s.handles[h]] = @ + 1],
+              !.handles = [x \in (DOMAIN s.handles) \cup {g} |-> IF x = g THEN s.handles[h] ELSE s.handles[x]]]
+DropF(s, h) ==             \* destruction / reset of h
+    LET res == Release(s.rc, s.kids, <<s.handles[h]>>)
+    IN [s EXCEPT !.rc = res.rc, !.kids = res.kids, !.handles = [g \in (DOMAIN s.handles) \ {h} |-> s.handles[g]]]
+\* assignment h = (an RCP holding) target.  RCP::operator= acquires the new pointee before it releases the old one: the
+\* right-hand side may be a reference to an RCP stored inside the object that h alone keeps alive, and releasing first
+\* would free the new pointee (through the cascade) before its count is raised.
+Dangles(s, h, target) == ReleaseFirst /\ target \notin DOMAIN Release(s.rc, s.kids, <<s.handles[h]>>).rc
+AssignF(s, h, target) ==
+    LET old == s.handles[h]
+        res == IF ReleaseFirst THEN Release(s.rc, s.kids, <<old>>)
+               ELSE Release([s.rc EXCEPT ![target] = @ + 1], s.kids, <<old>>)
+    IN [s EXCEPT !.rc = IF ReleaseFirst THEN [res.rc EXCEPT ![target] = @ + 1] ELSE res.rc,
+                 !.kids = res.kids, !.handles = [@ EXCEPT ![h] = target]]
+\* ---- the state machine
+Init == rc = St0.rc /\ kids = St0.kids /\ handles = St0.handles /\ nextId = St0.nextId
 FreshH == CHOOSE h \in 1..(MaxHandles + 1) : h \notin DOMAIN handles
-New(ch) == /\ nextId <= MaxObj /\ Cardinality(DOMAIN handles) < MaxHandles
-           /\ ch \subseteq Live
-           /\ rc' = [o \in Live \cup {nextId} |-> IF o = nextId THEN 1 ELSE IF o \in ch THEN rc[o] + 1 ELSE rc[o]]
-           /\ kids' = [o \in Live \cup {nextId} |-> IF o = nextId THEN ch ELSE kids[o]]
-           /\ handles' = [h \in (DOMAIN handles) \cup {FreshH} |-> IF h = FreshH THEN nextId ELSE handles[h]]
-           /\ nextId' = nextId + 1
-Dup(h) == /\ Cardinality(DOMAIN handles) < MaxHandles
-          /\ rc' = [rc EXCEPT ![handles[h]] = @ + 1]
-          /\ handles' = [g \in (DOMAIN handles) \cup {FreshH} |-> IF g = FreshH THEN handles[h] ELSE handles[g]]
-          /\ UNCHANGED <<kids, nextId>>
-Drop(h) == LET res == Release(rc, kids, <<handles[h]>>)
-           IN /\ rc' = res[1] /\ kids' = res[2]
-              /\ handles' = [g \in (DOMAIN handles) \ {h} |-> handles[g]]
-              /\ UNCHANGED nextId
-Next == (\E ch \in SUBSET Live : New(ch)) \/ (\E h \in DOMAIN handles : Dup(h) \/ Drop(h))
+CanAdd == Cardinality(DOMAIN handles) < MaxHandles
+New(ch) == nextId <= MaxObj /\ CanAdd /\ Becomes(NewF(St, FreshH, ch))
+Dup(h) == CanAdd /\ Becomes(DupF(St, h, FreshH))
+Drop(h) == Becomes(DropF(St, h))
+AssignHandle(h, g) == ~Dangles(St, h, handles[g]) /\ Becomes(AssignF(St, h, handles[g]))
+AssignChild(h, i) == ~Dangles(St, h, kids[handles[h]][i]) /\ Becomes(AssignF(St, h, kids[handles[h]][i]))
+ArgVectors == UNION {[1..n -> Live] : n \in 0..2}
+Next == \/ \E ch \in ArgVectors : New(ch)
+        \/ \E h \in DOMAIN handles : Dup(h) \/ Drop(h)
+        \/ \E h, g \in DOMAIN handles : AssignHandle(h, g)
+        \/ \E h \in DOMAIN handles : \E i \in 1..Len(kids[handles[h]]) : AssignChild(h, i)
 Spec == Init /\ [][Next]_vars
-Referrers(o) == Cardinality({h \in DOMAIN handles : handles[h] = o}) + Cardinality({p \in Live : o \in kids[p]})
+\* ---- properties
+Referrers(o) == Cardinality({h \in DOMAIN handles : handles[h] = o})
+                + Cardinality({<<p, i>> \in Live \X (1..2) : i <= Len(kids[p]) /\ kids[p][i] = o})
 CountsExact == \A o \in Live : rc[o] = Referrers(o) /\ rc[o] > 0
-ChildrenLive == \A o \in Live : kids[o] \subseteq Live
+ChildrenLive == \A o \in Live : KidSet(St, o) \subseteq Live
+HandlesLive == \A h \in DOMAIN handles : handles[h] \in Live
 QuiescentIsEmpty == (DOMAIN handles = {}) => Live = {}
+\* the wrong assignment reaches a state in which it would acquire a freed object
+NoDangling == \A h \in DOMAIN handles : \A i \in 1..Len(kids[handles[h]]) : ~Dangles(St, h, kids[handles[h]][i])
 =============================================================================
